@@ -46,7 +46,7 @@ let run id op a =
       else if ZZ.equal (md (ZZ.mul (bfe_value y) (z (n 0)))) ZZ.one then show y
       else "SPECDIFF inverse product is not one"
   | "div" ->
-      (match div0 (b (n 0)) (b (n 1)) with
+      (match bfe_div (b (n 0)) (b (n 1)) with
        | None -> "PANIC"
        | Some q ->
            if ZZ.equal (md (ZZ.mul (bfe_value q) (z (n 1)))) (md (z (n 0))) then show q
@@ -88,7 +88,7 @@ let run id op a =
   | "eqhash_ops" ->
       let x = b (n 0) and d = b (n 1) in
       let y = bfe_add (bfe_sub x d) d in
-      let zz = if ZZ.equal d bfe_zero then x else (match div0 (bfe_mul x d) d with Some q -> q | None -> x) in
+      let zz = if ZZ.equal d bfe_zero then x else (match bfe_div (bfe_mul x d) d with Some q -> q | None -> x) in
       Printf.sprintf "%s %s %s %s" (bit (ZZ.equal x y)) (bit (ZZ.equal x y)) (bit (ZZ.equal x zz)) (bit (ZZ.equal x zz))
   | "root" -> (match primitive_root_of_unity (z (n 0)) with Some r -> show r | None -> "NONE")
   | "iszero" -> Printf.sprintf "%s %s" (bit (ZZ.equal (b (n 0)) bfe_zero)) (bit (ZZ.equal (b (n 0)) bfe_one))
